@@ -686,7 +686,7 @@ class Canon:
             lo = new.value.slice.lower
             lov = 0 if lo is None else lo.value if isinstance(lo, ast.Constant) and isinstance(lo.value, int) else None
             if lov is not None and lov >= 0:      # v[lo:hi][i] == v[lo + i] (within the slice)
-                return ast.Subscript(value=new.value.value, slice=ast.Constant(value=lov + new.slice.value), ctx=ast.Load())
+                return Canon._fold(ast.Subscript(value=new.value.value, slice=ast.Constant(value=lov + new.slice.value), ctx=ast.Load()))
         if isinstance(new, ast.BinOp) and isinstance(new.op, ast.Add) and isinstance(new.left, ast.Tuple) and isinstance(new.right, ast.Tuple):
             return ast.Tuple(elts=list(new.left.elts) + list(new.right.elts), ctx=ast.Load())
         if isinstance(new, ast.BinOp) and isinstance(new.op, ast.Add) and isinstance(new.left, ast.Constant) and isinstance(new.right, ast.Constant) \
